@@ -35,6 +35,11 @@ func zzC07Assemble() string {
 		{Name: s("x.go"), InsertionPoint: s("a"), Content: "A2"},
 		{Name: s("y.go"), InsertionPoint: s("imports"), Content: "YI"},
 		{Name: s("x.go"), InsertionPoint: s("nowhere"), Content: "lost"},
+		// patches whose text carries insertion points of its own: one that another patch addresses,
+		// one that also occurs in the file (inserted text is not scanned again)
+		{Name: s("y.go"), InsertionPoint: s("z"), Content: "[" + ip("hooks") + "]"},
+		{Name: s("y.go"), InsertionPoint: s("hooks"), Content: "H"},
+		{Name: s("y.go"), InsertionPoint: s("imports"), Content: "<" + ip("z") + ">"},
 	})
 	if err != nil {
 		panic(err)
@@ -54,7 +59,7 @@ func H_C07_patches(budget int) {
 	zzrt.NondetMapOrderBudget(0)
 	zzrt.Cover("end")
 	zzrt.Assert(got == want, "the patched files depend on map iteration order")
-	zzrt.Assert(want == "== x.go\npackage x\n// I1I2\n// A1A2\n// AB\n// A1A2\nend\n== y.go\npackage y\n// Z YI\n", "patches land at every occurrence of their point in delivery order: "+want)
+	zzrt.Assert(want == "== x.go\npackage x\n// I1I2\n// A1A2\n// AB\n// A1A2\nend\n== y.go\npackage y\n// Z["+plugin.InsertionPoint("hooks")+"] YI<"+plugin.InsertionPoint("z")+">\n", "patches land at every occurrence of their point in delivery order: "+want)
 }
 
 func D_C07_patches() string { return zzC07Assemble() }
